@@ -1,21 +1,22 @@
 /-
-Bridge for property C07 (simulation plans), partial.  `Plans.stackedSolve` -- the specification side of the C07
-driver -- builds the impact matrix `M` by differencing the executable simulation, solves `M e = target − x⁰` with
-`QMat.solveChecked` and simulates with the solved instruments.  Derived here through the `QMat → Matrix` bridge:
+Bridge for property C07 (simulation plans).  `Plans.stackedSolve` -- the specification side of the C07 driver --
+builds the impact matrix `M` by differencing the executable simulation, solves `M e = target − x⁰` with
+`QMat.solveChecked` and simulates with the solved instruments.  Proved here, about the executable model itself:
 
-* `stackedSolve_ok`: the output *is* a plain simulation (from the same initial condition) of shocks that differ from
-  the inputs by the instrument vector `e` in the endogenized cells only, `M` is square, and
-* `stackedSolve_system`: `M e = target − x⁰` holds exactly as a Mathlib `mulVec` equation (from the solver's exact
-  re-check);
-* `stackedSolve_unique`: with `det M` a unit, `e` is the only instrument vector solving the system
-  (`C07.instruments_unique` carried down);
-* `stackedSolve_hits_targets_partial`: *given* the affinity of the executable simulation in the instruments
-  (`selectExo (simulate (input + E e)) = x⁰ + M e`, the statement `C07.exogenized_affine` proves for the matrix-level
-  recursion), every exogenized cell of the output equals its target.
+* **`model_exogenized_affine`** (the model-level `C07.exogenized_affine`): for *every* instrument vector `e`, the
+  exogenized cells of `Plans.simulate` run on the inputs with `e` added to the endogenized shock cells are
+  `x⁰ + M e`, with `(x⁰, M) = Plans.impact c`.  Proof: every `QVec` operation of the simulator (`vadd`,
+  `QMat.mulVec`, `colOf`, the `antImpact` fold, `simStep`, the `simulate` fold, `selectExo`) preserves the relation
+  `Aff` "x = x0 + Σ_k e_k (x_k − x0)"; `applyInstruments` satisfies it by construction.
+* `stackedSolve_ok`, `stackedSolve_system`: what a successful `stackedSolve` returns, and `M e = target − x⁰`
+  exactly (from the solver's re-check).
+* **`stackedSolve_hits_targets`** (unconditional): every exogenized cell of the output equals its target.
+* `stackedSolve_unique` and **`stackedSolve_roundtrip`** (`C07.roundtrip_recovers` on the model): if the targets were
+  read off a simulation with instruments `eTrue` and `det M` is a unit, `stackedSolve` returns exactly that
+  simulation (same instruments, shocks and states).
 
-NOT bridged (the remaining gap, see notes/QMatRefines.md): the affinity hypothesis itself, i.e. the refinement of the
-executable `Plans.simulate` (`QVec` folds: `vadd`, `mulVec`, `antImpact`) to `C07.simPath`/`drive`; with it
-`exogenized_affine` and `roundtrip_recovers` would apply to `stackedSolve` without any assumption but `det M ≠ 0`.
+Only hypotheses left: `u0`, `v0` well-shaped (the driver builds them with `QMat.ofFn`) and, for the round trip,
+`det M ≠ 0` (not derivable from `solveChecked` returning `some`).
 -/
 import IrisVerif.Lemmas.QMatRefines
 import IrisVerif.Props.C07
@@ -25,6 +26,317 @@ open Matrix
 namespace IrisVerif.BridgeC07
 
 open IrisVerif IrisVerif.QMat IrisVerif.Plans
+
+/-! ## reads of the `QVec` operations of the model -/
+
+theorem vadd_size (a b : QVec) : (vadd a b).size = a.size := by simp [vadd]
+theorem vadd_getD (a b : QVec) (i : Nat) :
+    (vadd a b).getD i 0 = if i < a.size then a.getD i 0 + b.getD i 0 else 0 := by
+  unfold vadd
+  by_cases h : i < a.size <;> simp [h]
+
+theorem vsub_size (a b : QVec) : (vsub a b).size = a.size := by simp [vsub]
+theorem vsub_getD (a b : QVec) (i : Nat) :
+    (vsub a b).getD i 0 = if i < a.size then a.getD i 0 - b.getD i 0 else 0 := by
+  unfold vsub
+  by_cases h : i < a.size <;> simp [h]
+
+theorem vzero_size (n : Nat) : (vzero n).size = n := by simp [vzero]
+theorem vzero_getD (n i : Nat) : (vzero n).getD i 0 = 0 := by
+  unfold vzero
+  by_cases h : i < n <;> simp [h]
+
+theorem colOf_size (a : QMat) (j : Nat) : (colOf a j).size = a.rows := by simp [colOf]
+theorem colOf_getD (a : QMat) (j i : Nat) : (colOf a j).getD i 0 = if i < a.rows then a.get i j else 0 := by
+  unfold colOf
+  by_cases h : i < a.rows <;> simp [h]
+
+theorem mulVec_getD (a : QMat) (v : QVec) (i : Nat) :
+    (a.mulVec v).getD i 0 = if i < a.rows then ∑ l ∈ Finset.range a.cols, a.get i l * v.getD l 0 else 0 := by
+  unfold QMat.mulVec
+  rw [toVec_getD, mul_rows]
+  by_cases h : i < a.rows
+  · simp only [h, if_true, get_mul, col_cols, Nat.lt_one_iff, and_self, get_col_zero]
+  · simp only [h, if_false]
+
+/-! ## affine dependence on an instrument vector -/
+
+/-- `x = x0 + Σ_{k<ni} e k • (xs k − x0)` entrywise, all of the same size -/
+structure Aff (ni : Nat) (e : Nat → ℚ) (x0 : QVec) (xs : Nat → QVec) (x : QVec) : Prop where
+  size : x.size = x0.size
+  sizes : ∀ k, k < ni → (xs k).size = x0.size
+  get : ∀ i, x.getD i 0 = x0.getD i 0 + ∑ k ∈ Finset.range ni, e k * ((xs k).getD i 0 - x0.getD i 0)
+
+/-- the same for matrices (rows equal, every read affine) -/
+structure MAff (ni : Nat) (e : Nat → ℚ) (u0 : QMat) (us : Nat → QMat) (u : QMat) : Prop where
+  rows : u.rows = u0.rows
+  rowss : ∀ k, k < ni → (us k).rows = u0.rows
+  get : ∀ i t, u.get i t = u0.get i t + ∑ k ∈ Finset.range ni, e k * ((us k).get i t - u0.get i t)
+
+variable {ni : Nat} {e : Nat → ℚ}
+
+theorem Aff.const (x : QVec) : Aff ni e x (fun _ => x) x :=
+  ⟨rfl, fun _ _ => rfl, fun i => by simp⟩
+
+theorem Aff.vadd {a0 b0 a b : QVec} {as bs : Nat → QVec} (ha : Aff ni e a0 as a) (hb : Aff ni e b0 bs b) :
+    Aff ni e (vadd a0 b0) (fun k => vadd (as k) (bs k)) (vadd a b) := by
+  refine ⟨by rw [vadd_size, vadd_size, ha.size], fun k hk => by rw [vadd_size, vadd_size, ha.sizes k hk], fun i => ?_⟩
+  rw [vadd_getD, vadd_getD, ha.size]
+  by_cases h : i < a0.size
+  · rw [if_pos h, if_pos h, ha.get, hb.get]
+    have : ∀ k ∈ Finset.range ni, e k * ((Plans.vadd (as k) (bs k)).getD i 0 - (a0.getD i 0 + b0.getD i 0))
+        = e k * ((as k).getD i 0 - a0.getD i 0) + e k * ((bs k).getD i 0 - b0.getD i 0) := by
+      intro k hk
+      rw [vadd_getD, ha.sizes k (Finset.mem_range.1 hk), if_pos h]; ring
+    rw [Finset.sum_congr rfl this, Finset.sum_add_distrib]; ring
+  · rw [if_neg h, if_neg h]
+    have : ∀ k ∈ Finset.range ni, e k * ((Plans.vadd (as k) (bs k)).getD i 0 - 0) = 0 := by
+      intro k hk
+      rw [vadd_getD, ha.sizes k (Finset.mem_range.1 hk), if_neg h]; ring
+    rw [Finset.sum_congr rfl this]; simp
+
+theorem Aff.mulVec {x0 x : QVec} {xs : Nat → QVec} (h : Aff ni e x0 xs x) (A : QMat) :
+    Aff ni e (A.mulVec x0) (fun k => A.mulVec (xs k)) (A.mulVec x) := by
+  refine ⟨by rw [mulVec_size, mulVec_size], fun k _ => by rw [mulVec_size, mulVec_size], fun i => ?_⟩
+  simp only [mulVec_getD]
+  by_cases hi : i < A.rows
+  · simp only [hi, if_true]
+    have : ∀ k ∈ Finset.range ni,
+        e k * (∑ l ∈ Finset.range A.cols, A.get i l * (xs k).getD l 0 - ∑ l ∈ Finset.range A.cols, A.get i l * x0.getD l 0)
+        = ∑ l ∈ Finset.range A.cols, A.get i l * (e k * ((xs k).getD l 0 - x0.getD l 0)) := by
+      intro k _
+      rw [← Finset.sum_sub_distrib, Finset.mul_sum]
+      exact Finset.sum_congr rfl (fun l _ => by ring)
+    rw [Finset.sum_congr rfl this, Finset.sum_comm, ← Finset.sum_add_distrib]
+    refine Finset.sum_congr rfl (fun l _ => ?_)
+    rw [h.get l, ← Finset.mul_sum]; ring
+  · simp [hi]
+
+theorem MAff.colOf {u0 u : QMat} {us : Nat → QMat} (h : MAff ni e u0 us u) (t : Nat) :
+    Aff ni e (colOf u0 t) (fun k => colOf (us k) t) (colOf u t) := by
+  refine ⟨by rw [colOf_size, colOf_size, h.rows], fun k hk => by rw [colOf_size, colOf_size, h.rowss k hk], fun i => ?_⟩
+  rw [colOf_getD, colOf_getD, h.rows]
+  by_cases hi : i < u0.rows
+  · rw [if_pos hi, if_pos hi, h.get]
+    congr 1
+    refine Finset.sum_congr rfl (fun k hk => ?_)
+    rw [colOf_getD, h.rowss k (Finset.mem_range.1 hk), if_pos hi]
+  · rw [if_neg hi, if_neg hi]
+    have : ∀ k ∈ Finset.range ni, e k * ((Plans.colOf (us k) t).getD i 0 - 0) = 0 := by
+      intro k hk
+      rw [colOf_getD, h.rowss k (Finset.mem_range.1 hk), if_neg hi]; ring
+    rw [Finset.sum_congr rfl this]; simp
+
+/-! ## the simulation is affine in the shocks -/
+
+theorem antImpact_size (s : Sol) (v : QMat) (N t : Nat) : (antImpact s v N t).size = s.numXi := by
+  unfold antImpact
+  generalize (List.range (N - t)) = l
+  suffices h : ∀ acc : QVec, acc.size = s.numXi →
+      (l.foldl (fun acc k => Plans.vadd acc ((s.R k).mulVec (Plans.colOf v (t + k)))) acc).size = s.numXi from
+    h _ (vzero_size _)
+  induction l with
+  | nil => intro acc h; exact h
+  | cons k l ih => intro acc h; rw [List.foldl_cons]; exact ih _ (by rw [vadd_size, h])
+
+theorem antImpact_aff {v0 v : QMat} {vs : Nat → QMat} (s : Sol) (h : MAff ni e v0 vs v) (N t : Nat) :
+    Aff ni e (antImpact s v0 N t) (fun k => antImpact s (vs k) N t) (antImpact s v N t) := by
+  unfold antImpact
+  generalize (List.range (N - t)) = l
+  suffices hh : ∀ (a0 a : QVec) (as : Nat → QVec), Aff ni e a0 as a →
+      Aff ni e (l.foldl (fun acc k => Plans.vadd acc ((s.R k).mulVec (Plans.colOf v0 (t + k)))) a0)
+        (fun j => l.foldl (fun acc k => Plans.vadd acc ((s.R k).mulVec (Plans.colOf (vs j) (t + k)))) (as j))
+        (l.foldl (fun acc k => Plans.vadd acc ((s.R k).mulVec (Plans.colOf v (t + k)))) a) from
+    hh _ _ _ (Aff.const _)
+  induction l with
+  | nil => intro a0 a as ha; exact ha
+  | cons k l ih =>
+    intro a0 a as ha
+    simp only [List.foldl_cons]
+    exact ih _ _ _ (ha.vadd ((h.colOf (t + k)).mulVec (s.R k)))
+
+theorem simStep_aff {u0 u v0 v : QMat} {us vs : Nat → QMat} {x0 x : QVec} {xs : Nat → QVec} (s : Sol)
+    (hu : MAff ni e u0 us u) (hv : MAff ni e v0 vs v) (hx : Aff ni e x0 xs x) (N t : Nat) :
+    Aff ni e (simStep s u0 v0 N t x0) (fun k => simStep s (us k) (vs k) N t (xs k)) (simStep s u v N t x) := by
+  unfold simStep
+  exact (((hx.mulVec s.T).vadd (Aff.const s.K)).vadd ((hu.colOf t).mulVec s.P)).vadd (antImpact_aff s hv N t)
+
+/-- the state after `t` steps of `simulate_flat` -/
+def stateAt (s : Sol) (init : QVec) (u v : QMat) (N : Nat) : Nat → QVec
+  | 0 => init
+  | t + 1 => simStep s u v N t (stateAt s init u v N t)
+
+theorem stateAt_aff {u0 u v0 v : QMat} {us vs : Nat → QMat} (s : Sol) (init : QVec)
+    (hu : MAff ni e u0 us u) (hv : MAff ni e v0 vs v) (N t : Nat) :
+    Aff ni e (stateAt s init u0 v0 N t) (fun k => stateAt s init (us k) (vs k) N t) (stateAt s init u v N t) := by
+  induction t with
+  | zero => exact Aff.const init
+  | succ t ih => exact simStep_aff s hu hv ih N t
+
+theorem simulate_fold (s : Sol) (init : QVec) (u v : QMat) (N n : Nat) :
+    ((List.range n).foldl (fun (acc : List QVec × QVec) t =>
+        let xi := simStep s u v N t acc.2
+        (xi :: acc.1, xi)) ([], init))
+      = (((List.range n).map (fun t => stateAt s init u v N (t + 1))).reverse, stateAt s init u v N n) := by
+  induction n with
+  | zero => rfl
+  | succ n ih =>
+    rw [List.range_succ, List.foldl_append, ih]
+    simp [stateAt]
+
+theorem simulate_eq (s : Sol) (init : QVec) (u v : QMat) (N : Nat) :
+    simulate s init u v N = (List.range N).map (fun t => stateAt s init u v N (t + 1)) := by
+  unfold simulate
+  rw [simulate_fold, List.reverse_reverse]
+
+theorem simulate_getD (s : Sol) (init : QVec) (u v : QMat) (N t : Nat) (ht : t < N) :
+    (simulate s init u v N).getD t #[] = stateAt s init u v N (t + 1) := by
+  rw [simulate_eq]
+  simp [List.getD_eq_getElem?_getD, ht]
+
+/-! ## the exogenized cells -/
+
+/-- (period, position in `xi`) of the exogenized cells, in the order of `selectExo` -/
+def exoSpots (c : CondInput) : List (Nat × Nat) :=
+  (List.range c.N).flatMap fun t => (c.exoCellsAt t).map fun i => (t, c.currIdx.getD i 0)
+
+theorem selectExo_eq (c : CondInput) (xi : List QVec) :
+    selectExo c xi = ((exoSpots c).map fun p => (xi.getD p.1 #[]).getD p.2 0).toArray := by
+  unfold selectExo exoSpots
+  simp [List.map_flatMap, List.map_map, Function.comp_def]
+
+theorem selectExo_size (c : CondInput) (xi : List QVec) : (selectExo c xi).size = (exoSpots c).length := by
+  rw [selectExo_eq]; simp
+
+theorem exoSpots_lt (c : CondInput) (r : Nat) (hr : r < (exoSpots c).length) : ((exoSpots c)[r]).1 < c.N := by
+  have hall : ∀ p ∈ exoSpots c, p.1 < c.N := by
+    intro p hp
+    unfold exoSpots at hp
+    rw [List.mem_flatMap] at hp
+    obtain ⟨t, ht, hm⟩ := hp
+    rw [List.mem_map] at hm
+    obtain ⟨i, _, hi⟩ := hm
+    rw [← hi]
+    exact List.mem_range.1 ht
+  exact hall _ (List.getElem_mem hr)
+
+theorem selectExo_getD (c : CondInput) (u v : QMat) (r : Nat) :
+    (selectExo c (simulate c.sol c.init u v c.N)).getD r 0 =
+      if h : r < (exoSpots c).length then
+        (stateAt c.sol c.init u v c.N ((exoSpots c)[r].1 + 1)).getD (exoSpots c)[r].2 0 else 0 := by
+  rw [selectExo_eq]
+  by_cases h : r < (exoSpots c).length
+  · simp only [h, dite_true]
+    rw [Array.getD_eq_getD_getElem?, List.getElem?_toArray, List.getElem?_map, List.getElem?_eq_getElem h]
+    simp only [Option.map_some, Option.getD_some]
+    rw [simulate_getD _ _ _ _ _ _ (exoSpots_lt c r h)]
+  · simp only [h, dite_false]
+    rw [Array.getD_eq_getD_getElem?, List.getElem?_toArray, List.getElem?_map, List.getElem?_eq_none (by omega)]
+    rfl
+
+theorem selectExo_aff {u0 u v0 v : QMat} {us vs : Nat → QMat} (c : CondInput)
+    (hu : MAff ni e u0 us u) (hv : MAff ni e v0 vs v) :
+    Aff ni e (selectExo c (simulate c.sol c.init u0 v0 c.N))
+      (fun k => selectExo c (simulate c.sol c.init (us k) (vs k) c.N))
+      (selectExo c (simulate c.sol c.init u v c.N)) := by
+  refine ⟨by rw [selectExo_size, selectExo_size], fun k _ => by rw [selectExo_size, selectExo_size], fun r => ?_⟩
+  simp only [selectExo_getD]
+  by_cases h : r < (exoSpots c).length
+  · simp only [h, dite_true]
+    exact (stateAt_aff c.sol c.init hu hv c.N _).get _
+  · simp [h]
+
+/-! ## adding instruments is affine in the instrument vector -/
+
+theorem unitVec_getD (n k i : Nat) : (unitVec n k).getD i 0 = if i < n ∧ i = k then 1 else 0 := by
+  unfold unitVec
+  by_cases h : i < n <;> simp [h]
+
+theorem sum_unit (n k' : Nat) (f : Nat → ℚ) (h : k' < n) :
+    ∑ k ∈ Finset.range n, f k * (if k' < n ∧ k' = k then (1 : ℚ) else 0) = f k' := by
+  simp only [h, true_and, mul_ite, mul_one, mul_zero]
+  rw [Finset.sum_ite_eq]
+  simp [h]
+
+theorem applyInstruments_u_aff (c : CondInput) (hw : c.u0.wellShaped = true) (e : QVec) :
+    MAff (numInstruments c) (fun k => e.getD k 0) c.u0
+      (fun k => (applyInstruments c (unitVec (numInstruments c) k)).1) (applyInstruments c e).1 := by
+  refine ⟨rfl, fun _ _ => rfl, fun i t => ?_⟩
+  unfold applyInstruments
+  simp only [get_ofFn]
+  by_cases h : i < c.u0.rows ∧ t < c.u0.cols
+  · simp only [h, and_self, if_true, add_sub_cancel_left]
+    congr 1
+    cases hidx : (cellsColMajor c.endoU c.N).idxOf? (i, t) with
+    | none => simp
+    | some k' =>
+      simp only
+      obtain ⟨hk', _⟩ := List.idxOf?_eq_some_iff.1 hidx
+      have hlt : k' < numInstruments c := by unfold numInstruments; omega
+      simp only [unitVec_getD]
+      rw [sum_unit _ _ _ hlt]
+  · simp only [h, if_false]
+    rw [get_of_out c.u0 hw i t (by omega)]
+    simp
+
+theorem applyInstruments_v_aff (c : CondInput) (hw : c.v0.wellShaped = true) (e : QVec) :
+    MAff (numInstruments c) (fun k => e.getD k 0) c.v0
+      (fun k => (applyInstruments c (unitVec (numInstruments c) k)).2) (applyInstruments c e).2 := by
+  refine ⟨rfl, fun _ _ => rfl, fun i t => ?_⟩
+  unfold applyInstruments
+  simp only [get_ofFn]
+  by_cases h : i < c.v0.rows ∧ t < c.v0.cols
+  · simp only [h, and_self, if_true, add_sub_cancel_left]
+    congr 1
+    cases hidx : (cellsColMajor c.endoV c.N).idxOf? (i, t) with
+    | none => simp
+    | some k' =>
+      simp only
+      obtain ⟨hk', _⟩ := List.idxOf?_eq_some_iff.1 hidx
+      have hlt : (cellsColMajor c.endoU c.N).length + k' < numInstruments c := by unfold numInstruments; omega
+      simp only [unitVec_getD]
+      rw [sum_unit _ _ _ hlt]
+  · simp only [h, if_false]
+    rw [get_of_out c.v0 hw i t (by omega)]
+    simp
+
+/-! ## the impact matrix -/
+
+theorem impact_fst (c : CondInput) : (impact c).1 = selectExo c (simulate c.sol c.init c.u0 c.v0 c.N) := rfl
+
+theorem impact_rows (c : CondInput) : (impact c).2.rows = (exoSpots c).length := by
+  show (selectExo c _).size = _
+  exact selectExo_size c _
+
+theorem impact_cols (c : CondInput) : (impact c).2.cols = numInstruments c := by
+  show (List.map _ (List.range (numInstruments c))).length = _
+  simp
+
+theorem impact_get (c : CondInput) (r k : Nat) (hr : r < (exoSpots c).length) (hk : k < numInstruments c) :
+    (impact c).2.get r k =
+      (selectExo c (simulate c.sol c.init (applyInstruments c (unitVec (numInstruments c) k)).1
+        (applyInstruments c (unitVec (numInstruments c) k)).2 c.N)).getD r 0 - (impact c).1.getD r 0 := by
+  unfold impact ofCols
+  simp only
+  rw [get_ofFn_of_lt _ _ _ _ _ (by rw [selectExo_size]; exact hr) (by simp; exact hk)]
+  rw [List.getD_eq_getElem?_getD, List.getElem?_map, List.getElem?_range hk]
+  simp only [Option.map_some, Option.getD_some]
+  rw [vsub_getD, selectExo_size, if_pos hr]
+
+/-- **`exogenized_affine` for the executable model**: the exogenized cells of the simulation with the instruments `e`
+added to the endogenized shock cells are `x⁰ + M e`, entry by entry, for every instrument vector -/
+theorem model_exogenized_affine (c : CondInput) (hu : c.u0.wellShaped = true) (hv : c.v0.wellShaped = true)
+    (e : QVec) (r : Nat) (hr : r < (exoSpots c).length) :
+    (selectExo c (simulate c.sol c.init (applyInstruments c e).1 (applyInstruments c e).2 c.N)).getD r 0
+      = (impact c).1.getD r 0 + ∑ k ∈ Finset.range (numInstruments c), (impact c).2.get r k * e.getD k 0 := by
+  have h := (selectExo_aff c (applyInstruments_u_aff c hu e) (applyInstruments_v_aff c hv e)).get r
+  rw [h, impact_fst]
+  congr 1
+  refine Finset.sum_congr rfl (fun k hk => ?_)
+  rw [impact_get c r k hr (Finset.mem_range.1 hk), impact_fst]
+  ring
+
+/-! ## `stackedSolve` -/
 
 theorem stackedSolve_ok (c : CondInput) (o : CondOutput) (M : QMat) (h : stackedSolve c = .ok (o, M)) :
     M = (impact c).2 ∧ M.rows = M.cols ∧
@@ -46,51 +358,144 @@ theorem stackedSolve_ok (c : CondInput) (o : CondOutput) (M : QMat) (h : stacked
       refine ⟨hM.symm, by rw [← hM]; exact hsq, e, ?_, rfl, rfl, rfl⟩
       rw [← hM]; exact he
 
-theorem vsub_getD (a b : QVec) (i : Nat) :
-    (vsub a b).getD i 0 = if i < a.size then a.getD i 0 - b.getD i 0 else 0 := by
-  unfold vsub
-  by_cases h : i < a.size <;> simp [h]
+/-- the exact re-check of the solver, read entry by entry -/
+theorem solve_system (M : QMat) (b : QVec) (e : QMat) (he : QMat.solveChecked M (QMat.col b) = some e) :
+    e.rows = M.rows ∧ b.size = M.rows ∧ M.cols = M.rows ∧
+    ∀ r, r < M.rows → ∑ k ∈ Finset.range M.cols, M.get r k * e.toVec.getD k 0 = b.getD r 0 := by
+  obtain ⟨hs, hq⟩ := solveChecked_eq_some _ _ e he
+  obtain ⟨h1, h2, h3, h4, _⟩ := solve_dims _ _ e hs
+  obtain ⟨_, _, hget⟩ := (eqv_iff_get _ _).1 hq
+  refine ⟨h3, by rw [h2]; rfl, h1.symm, fun r hr => ?_⟩
+  have := hget r 0 hr (by rw [mul_cols, h4]; exact Nat.one_pos)
+  rw [get_mul, if_pos ⟨hr, by rw [h4]; exact Nat.one_pos⟩, get_col_zero] at this
+  rw [← this]
+  refine Finset.sum_congr rfl (fun k hk => ?_)
+  rw [toVec_getD, h3, if_pos (by rw [h1]; exact Finset.mem_range.1 hk)]
 
-/-- **the stacked system holds exactly**: `M e = target − x⁰` as a Mathlib equation, `k = M.rows` exogenized cells
-and as many instruments -/
+/-- **the stacked system holds exactly**: `M e = target − x⁰` for the instruments `e` the output was simulated with -/
 theorem stackedSolve_system (c : CondInput) (o : CondOutput) (M : QMat) (h : stackedSolve c = .ok (o, M)) :
-    ∃ e : QMat, o.u = (applyInstruments c e.toVec).1 ∧ o.v = (applyInstruments c e.toVec).2 ∧
-      (targetVec c).size = M.rows ∧
-      M.toMat M.rows M.rows *ᵥ (fun i : Fin M.rows => e.get i 0) =
-        fun i : Fin M.rows => (targetVec c).getD i 0 - (impact c).1.getD i 0 := by
-  obtain ⟨_, _, e, he, hu, hv, _⟩ := stackedSolve_ok c o M h
-  obtain ⟨_, h2, _, _, _, h6⟩ := solveChecked_sound _ _ e he
-  have hsz : (targetVec c).size = M.rows := by
-    rw [← h2, col_rows]; simp [vsub]
-  refine ⟨e, hu, hv, hsz, ?_⟩
-  rw [col_cols] at h6
-  have := mulVec_of_mul_col _ e _ h6
-  rw [this]
-  funext i
-  rw [get_col_zero, vsub_getD, if_pos (by rw [hsz]; exact i.isLt)]
+    ∃ e : QVec, o.u = (applyInstruments c e).1 ∧ o.v = (applyInstruments c e).2 ∧
+      o.xi = simulate c.sol c.init o.u o.v c.N ∧
+      (targetVec c).size = (exoSpots c).length ∧ numInstruments c = (exoSpots c).length ∧
+      ∀ r, r < (exoSpots c).length →
+        ∑ k ∈ Finset.range (numInstruments c), (impact c).2.get r k * e.getD k 0
+          = (targetVec c).getD r 0 - (impact c).1.getD r 0 := by
+  obtain ⟨hM, _, e, he, hu, hv, hxi⟩ := stackedSolve_ok c o M h
+  rw [hM] at he
+  obtain ⟨_, h2, h3, h4⟩ := solve_system _ _ e he
+  rw [impact_rows] at h2 h3 h4
+  rw [impact_cols] at h3 h4
+  rw [vsub_size] at h2
+  refine ⟨e.toVec, hu, hv, hxi, h2, h3, fun r hr => ?_⟩
+  rw [h4 r hr, vsub_getD, if_pos (by rw [h2]; exact hr)]
 
-/-- `C07.instruments_unique` on the model: a non-singular impact matrix admits no other instrument vector -/
-theorem stackedSolve_unique (c : CondInput) (o : CondOutput) (M : QMat) (_h : stackedSolve c = .ok (o, M))
-    (hdet : IsUnit (M.toMat M.rows M.rows).det) (e e' : Fin M.rows → ℚ)
-    (he : M.toMat M.rows M.rows *ᵥ e = fun i : Fin M.rows => (targetVec c).getD i 0 - (impact c).1.getD i 0)
-    (he' : M.toMat M.rows M.rows *ᵥ e' = fun i : Fin M.rows => (targetVec c).getD i 0 - (impact c).1.getD i 0) :
-    e = e' :=
-  C07.instruments_unique _ hdet e e' (he.trans he'.symm)
+/-- **every exogenized cell of the output of `stackedSolve` equals its target** -- unconditionally -/
+theorem stackedSolve_hits_targets (c : CondInput) (hu : c.u0.wellShaped = true) (hv : c.v0.wellShaped = true)
+    (o : CondOutput) (M : QMat) (h : stackedSolve c = .ok (o, M)) :
+    ∀ r, (selectExo c o.xi).getD r 0 = (targetVec c).getD r 0 := by
+  obtain ⟨e, hou, hov, hxi, hsz, _, hsys⟩ := stackedSolve_system c o M h
+  intro r
+  by_cases hr : r < (exoSpots c).length
+  · rw [hxi, hou, hov, model_exogenized_affine c hu hv e r hr, hsys r hr]; ring
+  · have h1 : (selectExo c o.xi).getD r 0 = 0 := by
+      rw [Array.getD_eq_getD_getElem?, Array.getElem?_eq_none (by rw [selectExo_size]; omega)]; rfl
+    have h2 : (targetVec c).getD r 0 = 0 := by
+      rw [Array.getD_eq_getD_getElem?, Array.getElem?_eq_none (by rw [hsz]; omega)]; rfl
+    rw [h1, h2]
 
-/-- **exogenized cells hit their targets -- given the affinity of the executable simulation.**
-Full statement (not proved here): the hypothesis `haff` holds for every `c` (it is `C07.exogenized_affine` for the
-executable `Plans.simulate`); what is missing is the refinement of `Plans.simulate` to `C07.simPath`. -/
-theorem stackedSolve_hits_targets_partial (c : CondInput) (o : CondOutput) (M : QMat)
-    (h : stackedSolve c = .ok (o, M))
-    (haff : ∀ e : QMat, ∀ i : Fin M.rows,
-      (selectExo c (simulate c.sol c.init (applyInstruments c e.toVec).1 (applyInstruments c e.toVec).2 c.N)).getD i 0
-        = (impact c).1.getD i 0 + (M.toMat M.rows M.rows *ᵥ (fun i : Fin M.rows => e.get i 0)) i) :
-    ∀ i : Fin M.rows, (selectExo c o.xi).getD i 0 = (targetVec c).getD i 0 := by
-  obtain ⟨_, _, e', _, hu', hv', hxi⟩ := stackedSolve_ok c o M h
-  obtain ⟨e, hu, hv, _, hsys⟩ := stackedSolve_system c o M h
-  intro i
-  have := haff e i
-  rw [← hu, ← hv, ← hxi, hsys] at this
-  rw [this]; ring
+/-- the output depends on the instrument vector only through its first `numInstruments` entries -/
+theorem applyInstruments_congr (c : CondInput) (e e' : QVec)
+    (h : ∀ k, k < numInstruments c → e.getD k 0 = e'.getD k 0) : applyInstruments c e = applyInstruments c e' := by
+  unfold applyInstruments
+  simp only [Prod.mk.injEq]
+  constructor
+  · congr 1
+    funext i t
+    congr 1
+    cases hidx : (cellsColMajor c.endoU c.N).idxOf? (i, t) with
+    | none => rfl
+    | some k' =>
+      obtain ⟨hk', _⟩ := List.idxOf?_eq_some_iff.1 hidx
+      exact h k' (by unfold numInstruments; omega)
+  · congr 1
+    funext i t
+    congr 1
+    cases hidx : (cellsColMajor c.endoV c.N).idxOf? (i, t) with
+    | none => rfl
+    | some k' =>
+      obtain ⟨hk', _⟩ := List.idxOf?_eq_some_iff.1 hidx
+      exact h _ (by unfold numInstruments; omega)
+
+/-- the impact matrix as a square Mathlib matrix (`m` = number of exogenized cells = number of instruments) -/
+def impactM (c : CondInput) : Matrix (Fin (exoSpots c).length) (Fin (exoSpots c).length) ℚ :=
+  (impact c).2.toMat _ _
+
+/-- `C07.instruments_unique` on the model -/
+theorem stackedSolve_unique (c : CondInput) (hdet : IsUnit (impactM c).det)
+    (e e' : Fin (exoSpots c).length → ℚ) (he : impactM c *ᵥ e = impactM c *ᵥ e') : e = e' :=
+  C07.instruments_unique _ hdet e e' he
+
+/-- **`C07.roundtrip_recovers` on the executable model.**  If the targets are the exogenized cells of the simulation
+with instrument values `eTrue` and the impact matrix is non-singular, `stackedSolve` returns exactly that simulation:
+the same shocks and the same states. -/
+theorem stackedSolve_roundtrip (c : CondInput) (hu : c.u0.wellShaped = true) (hv : c.v0.wellShaped = true)
+    (eTrue : QVec)
+    (htar : ∀ r, r < (exoSpots c).length → (targetVec c).getD r 0 =
+      (selectExo c (simulate c.sol c.init (applyInstruments c eTrue).1 (applyInstruments c eTrue).2 c.N)).getD r 0)
+    (hdet : IsUnit (impactM c).det)
+    (o : CondOutput) (M : QMat) (h : stackedSolve c = .ok (o, M)) :
+    o.u = (applyInstruments c eTrue).1 ∧ o.v = (applyInstruments c eTrue).2 ∧
+      o.xi = simulate c.sol c.init (applyInstruments c eTrue).1 (applyInstruments c eTrue).2 c.N := by
+  obtain ⟨e, hou, hov, hxi, _, hni, hsys⟩ := stackedSolve_system c o M h
+  have hmul : ∀ (w : QVec), (impactM c *ᵥ fun k : Fin (exoSpots c).length => w.getD k 0)
+      = fun r : Fin (exoSpots c).length =>
+          ∑ k ∈ Finset.range (numInstruments c), (impact c).2.get r k * w.getD k 0 := by
+    intro w
+    funext r
+    rw [hni, ← Fin.sum_univ_eq_sum_range (fun k => (impact c).2.get r k * w.getD k 0)]
+    rfl
+  have heq : (fun k : Fin (exoSpots c).length => e.getD k 0) = fun k : Fin (exoSpots c).length => eTrue.getD k 0 := by
+    apply stackedSolve_unique c hdet
+    rw [hmul, hmul]
+    funext r
+    rw [hsys r r.isLt, htar r r.isLt, model_exogenized_affine c hu hv eTrue r r.isLt]
+    ring
+  have hread : ∀ k, k < numInstruments c → e.getD k 0 = eTrue.getD k 0 := by
+    intro k hk
+    exact congrFun heq ⟨k, hni ▸ hk⟩
+  have := applyInstruments_congr c e eTrue hread
+  rw [this] at hou hov
+  refine ⟨hou, hov, ?_⟩
+  rw [hxi, hou, hov]
+
+/-! ## non-vacuity (kernel evaluation of the executable model) -/
+
+namespace Examples
+
+/-- one state `x_t = 1/2 x_{t-1} + u_t + (anticipated)`, two periods, `x` exogenized in both, the unanticipated shock
+endogenized in period 0 and the anticipated one in period 1: a 2 × 2 stacked system -/
+def exIn : CondInput :=
+  { sol := ⟨QMat.ofRows [[1/2]], #[0], QMat.ofRows [[1]], QMat.ofRows [[1]], QMat.ofRows [[1/2]], QMat.ofRows [[1]]⟩,
+    currIdx := [0], init := #[1], N := 2,
+    u0 := QMat.ofFn 1 2 (fun _ _ => 0), v0 := QMat.ofFn 1 2 (fun _ _ => 0),
+    stdU := QMat.ofFn 1 2 (fun _ _ => 1), stdV := QMat.ofFn 1 2 (fun _ _ => 1),
+    exo := [[true, true]], target := QMat.ofRows [[3, 5]],
+    endoU := [[true, false]], endoV := [[false, true]] }
+
+/-- the stacked solve succeeds and the exogenized cells hit `3` and `5` (evaluated by the kernel) -/
+theorem ex_stacked :
+    (match stackedSolve exIn with
+      | .ok (o, _) => decide ((selectExo exIn o.xi).getD 0 0 = 3 ∧ (selectExo exIn o.xi).getD 1 0 = 5)
+      | .error _ => false) = true := by decide +kernel
+
+/-- the hypotheses of `stackedSolve_hits_targets` are met -/
+example : (∃ o M, stackedSolve exIn = .ok (o, M)) ∧ exIn.u0.wellShaped = true ∧ exIn.v0.wellShaped = true := by
+  refine ⟨?_, wellShaped_ofFn _ _ _, wellShaped_ofFn _ _ _⟩
+  have h := ex_stacked
+  cases hs : stackedSolve exIn with
+  | error err => rw [hs] at h; cases h
+  | ok p => exact ⟨p.1, p.2, rfl⟩
+
+end Examples
 
 end IrisVerif.BridgeC07
